@@ -11,6 +11,10 @@ Families (field fam)
             them) under ! && || and parentheses, also as a filter predicate (C01, C10, C11)
   inflate : nested projections whose inner subject is a temporary built per element ({k: E}.k, [E][0], to_array(E) ...),
             over records whose inner arrays cross the sizes 8, 16, 21, 64 (C01, C11)
+  hash    : multi-select hashes with keys out of order / repeated / non-ASCII, at the head, after a dot, a pipe and inside projections,
+            followed by every kind of continuation (C01, C04)
+  nest    : by-functions and map inside the expression reference of a by-function (state carried within one evaluation) (C02, C05)
+  compose : every built-in applied to what the any-typed built-ins pass through, expression references in containers included (C05, C06)
   alias   : the same document node reached twice (both operands of a comparison, two arguments of a call) (C01, C10, C06)
 """
 import itertools, json, os, sys
@@ -121,6 +125,57 @@ for f, g in itertools.product(fns, repeat=2):
 for a in ("big", "bign"):
     add("alias", "contains(%s, %s[0])" % (a, a), adoc)
     add("alias", "[%s == %s, %s[?@ == %s[0]]]" % (a, a, a, a), adoc)
+
+# ---------------------------------------------------------------- hash
+# multi-select hashes: keys written out of order, repeated keys, non-ASCII keys -- the result is an object (members by key, the last
+# repeated key wins), whatever follows it
+hdoc = {"first": "Ada", "last": "Lovelace", "born": 1815, "x": {"first": 1, "last": 2, "born": 3}, "xs": [{"first": "a", "last": "b", "born": 1}, {"first": "c", "last": None, "born": 2}]}
+hashes = ["{z: first, m: last, a: born}", "{a: first, a: last}", "{b: first, a: last}", "{a: first, b: last, a: born}", "{\"é\": first, e: last, z: born, Z: first}",
+          "{k: first}", "{b: born, a: {d: last, c: first}}", "{z: first, a: missing}", "{c: first, b: last, c: born, a: first, b: born}"]
+for h in hashes:
+    for t in ["%s", "%s.*", "%s | *", "x.%s", "x.%s.*", "xs[*].%s", "xs[*].%s.*", "xs[].%s.* | [0]", "(%s).*", "%s.* | [0]", "keys(%s)", "values(%s)", "%s | keys(@)",
+              "%s | values(@)", "%s.a", "%s.z", "xs[?born > `1`].%s.*", "[%s, %s]", "%s.*[0]", "length(%s)", "merge(%s, {a: `0`})", "to_array(%s)[0].*", "map(&%s.*, xs)",
+              "xs[*].%s | [0].*", "!%s", "%s == %s", "sort_by(xs, &born)[*].%s.*", "not_null(%s).*", "%s || first", "%s && first"]:
+        add("hash", t.replace("%s", h), hdoc)
+
+# ---------------------------------------------------------------- nest
+# a by-function (or map) inside the expression reference of a by-function: the inner call must not disturb the outer one
+def groups(sizes, seed):
+    return {"g": [{"id": i, "m": [{"k": ((i * 7 + j * 5 + seed) % 11), "j": j} for j in range(n)]} for i, n in enumerate(sizes)]}
+byf = ["sort_by", "max_by", "min_by"]
+for sizes in [(2, 2, 2, 2), (1, 3, 2, 1, 2), (3, 1), (2, 2, 2, 2, 2, 2, 2), (1,), (4, 1, 1, 1, 1, 1)]:
+    d = groups(sizes, len(sizes))
+    for f, g in itertools.product(byf, byf):
+        inner = "%s(m, &k)" % g
+        key = inner + ("[0].k" if g == "sort_by" else ".k")
+        add("nest", "%s(g, &%s)" % (f, key) + ("[*].id" if f == "sort_by" else ".id"), d)
+        add("nest", "%s(g, &%s)" % (f, key), d)
+    add("nest", "sort_by(g, &sum(map(&k, sort_by(m, &j))))[*].id", d)
+    add("nest", "map(&sort_by(m, &k)[*].j, sort_by(g, &length(m)))", d)
+    add("nest", "sort_by(g, &map(&k, sort_by(m, &k))[0])[*].id", d)
+    add("nest", "sort_by(g, &sort_by(sort_by(m, &j), &k)[-1].k)[*].id", d)
+    add("nest", "g[*].sort_by(m, &k)[0].j", d)
+    add("nest", "max_by(g, &length(sort_by(m, &k))).id", d)
+
+# ---------------------------------------------------------------- compose
+# every built-in on what the any-typed built-ins pass through, expression references inside containers among it: totality (C05) --
+# and the value wherever the specification determines it
+cdoc2 = {"foo": [1, 2], "s": "x", "n": -1.5, "o": {"a": 1}, "z": None}
+leaves = ["foo", "s", "n", "o", "z", "&foo", "&foo[0]", "`1`", "'x'", "@"]
+wrap = ["%s", "to_array(%s)", "not_null(%s)", "[%s]", "{k: %s}", "[not_null(%s), `1`]", "map(&@, to_array(%s))", "to_array(to_array(%s))", "not_null(z, %s)", "{k: [%s]}.k"]
+one = ["abs", "avg", "ceil", "floor", "keys", "length", "max", "min", "not_null", "reverse", "sort", "sum", "to_array", "to_number", "to_string", "type", "values", "merge"]
+two = ["contains", "ends_with", "starts_with", "join", "map", "max_by", "min_by", "sort_by", "merge", "not_null"]
+args1 = [w % l if "%s" in w else w for w in wrap for l in leaves]
+for f in one:
+    for a in args1:
+        add("compose", "%s(%s)" % (f, a), cdoc2)
+small = [w % l for w in wrap[:5] for l in ("foo", "s", "&foo", "o")]
+for f in two:
+    for a, b in itertools.product(small, repeat=2):
+        add("compose", "%s(%s, %s)" % (f, a, b), cdoc2)
+for a in args1:
+    add("compose", "foo[*].to_string([@, %s])" % a, cdoc2)
+    add("compose", "%s == %s" % (a, a), cdoc2)
 
 out = os.path.join(VERIF, "spec", "gen", "eval_pools.ndjson")
 with open(out, "w") as f:
